@@ -91,6 +91,23 @@ func runC13(c *Ctx) {
 	b := c.W.NewBrowser("b1", "10.2.0.5:51000")
 	b.VaryPort = c.T.Bool(1, 2)
 	c.W.IdP.NoExpiresIn = c.T.Bool(1, 4)
+	c.W.IdP.AzpOnWrongAud = c.T.Bool(1, 2)
+	// other claims the provider puts into its ID tokens (group memberships as names or as
+	// objects, many of them): none of the gateway's business
+	switch c.T.Choose(5) {
+	case 1:
+		user.Claims["groups"] = []any{"rdp-users", "staff"}
+	case 2:
+		var g []any
+		for k := 0; k < 60; k++ {
+			g = append(g, fmt.Sprintf("cn=group-number-%02d,ou=groups,dc=corp,dc=example", k))
+		}
+		user.Claims["groups"] = g
+	case 3:
+		user.Claims["groups"] = []any{map[string]any{"id": "7f3e", "name": "rdp-users"}, map[string]any{"id": "9a10", "name": "staff"}}
+	case 4:
+		user.Claims["realm_access"] = map[string]any{"roles": []any{"offline_access", "uma_authorization"}}
+	}
 	if existing {
 		// the session already exists (an earlier visit that did not log in)
 		if r := b.Get("/connect"); !toIdP(c, r) {
